@@ -287,6 +287,8 @@ def check_flow(case, ctx):
         p.finalize()
         fb = p.serialize()
         tx = p.final_tx()
+        # extracting the transaction reads the PSBT: the object still serialises to the same (loadable) PSBT
+        require(p.serialize() == fb, "workflow/final_tx_changed_the_psbt_object")
         return fb, tx
 
     st1, r1 = attempt(finish, c1)
